@@ -160,6 +160,109 @@ type tokenSep struct {
 	// write sites that begin with an identifier character: states seen before them
 	sites map[ssa.Instruction]int
 	via   map[ssa.Instruction]string
+	// lines: the abstraction is "at the start of a line" (tsA: the text ends with a line break and
+	// tabs) against "inside a line" (tsS) instead of the class of the last character
+	lines bool
+	tail  string // lines: the one text after which the output is at a line start ("" = not uniform)
+}
+
+// lnOfString: line mode. first is tsA when the text begins with a line break
+// (after blanks), last is tsA when it ends with a line break followed by tabs
+// only; a text of blanks only leaves a line start (a line holding a blank is
+// not followed up: the rule then misses, it does not alarm).
+func lnOfString(s string) tsAlt {
+	if s == "" {
+		return tsAlt{empty: true}
+	}
+	a := tsAlt{first: tsS, last: tsS}
+	if t := strings.TrimLeft(s, " \t"); strings.HasPrefix(t, "\n") {
+		a.first = tsA
+	}
+	if t := strings.TrimRight(s, "\t"); strings.HasSuffix(t, "\n") {
+		a.last = tsA
+	}
+	return a
+}
+
+func lnTail(s string) string {
+	i := strings.LastIndexByte(s, '\n')
+	if i < 0 {
+		return ""
+	}
+	return s[i:]
+}
+
+func lnSeq(a, b tsAlt) tsAlt {
+	switch {
+	case a.empty:
+		return b
+	case b.empty:
+		return a
+	}
+	return tsAlt{first: a.first, last: b.last}
+}
+
+var lnDynamic = tsAlt{first: tsS, last: tsS}
+
+func lnOfValue(v ssa.Value, seen map[ssa.Value]bool) []tsAlt {
+	if seen[v] {
+		return nil
+	}
+	seen[v] = true
+	switch x := v.(type) {
+	case *ssa.Const:
+		if x.Value == nil {
+			return []tsAlt{{empty: true}}
+		}
+		switch x.Value.Kind() {
+		case constant.String:
+			return []tsAlt{lnOfString(constant.StringVal(x.Value))}
+		case constant.Int:
+			if n, ok := constant.Int64Val(x.Value); ok {
+				return []tsAlt{lnOfString(string(rune(n)))}
+			}
+		}
+	case *ssa.Phi:
+		var res []tsAlt
+		for _, e := range x.Edges {
+			res = append(res, lnOfValue(e, seen)...)
+		}
+		return res
+	case *ssa.BinOp:
+		if x.Op.String() == "+" {
+			var res []tsAlt
+			for _, a := range lnOfValue(x.X, seen) {
+				for _, b := range lnOfValue(x.Y, seen) {
+					res = append(res, lnSeq(a, b))
+				}
+			}
+			if len(res) > 0 {
+				return res
+			}
+		}
+	case *ssa.Convert:
+		if b, ok := x.X.Type().Underlying().(*types.Basic); ok && b.Info()&types.IsInteger != 0 {
+			return lnOfValue(x.X, seen)
+		}
+	case *ssa.ChangeType:
+		return lnOfValue(x.X, seen)
+	}
+	return []tsAlt{lnDynamic}
+}
+
+// lnOfFormat: the verbs never produce a line break (glyph names, numbers, quoted strings).
+func lnOfFormat(f string) tsAlt {
+	if f == "" {
+		return tsAlt{empty: true}
+	}
+	a := tsAlt{first: tsS, last: tsS}
+	if t := strings.TrimLeft(f, " \t"); strings.HasPrefix(t, "\n") {
+		a.first = tsA
+	}
+	if t := strings.TrimRight(f, "\t"); strings.HasSuffix(t, "\n") {
+		a.last = tsA
+	}
+	return a
 }
 
 func isBuilderRecv(t types.Type) bool {
@@ -184,6 +287,9 @@ func (ts *tokenSep) writeOf(in ssa.Instruction) (tsWrite, bool) {
 		return tsWrite{}, false
 	}
 	name := callee.Name()
+	if ts.lines {
+		return ts.lnWriteOf(c, callee)
+	}
 	if callee.Signature.Recv() != nil && isBuilderRecv(callee.Signature.Recv().Type()) {
 		switch name {
 		case "WriteString", "WriteRune", "WriteByte":
@@ -216,6 +322,77 @@ func (ts *tokenSep) writeOf(in ssa.Instruction) (tsWrite, bool) {
 		}
 	}
 	return tsWrite{}, false
+}
+
+func (ts *tokenSep) lnWriteOf(c *ssa.CallCommon, callee *ssa.Function) (tsWrite, bool) {
+	name := callee.Name()
+	if callee.Signature.Recv() != nil && isBuilderRecv(callee.Signature.Recv().Type()) {
+		switch name {
+		case "WriteString", "WriteRune", "WriteByte":
+			if len(c.Args) == 2 {
+				return tsWrite{alts: lnOfValue(c.Args[1], map[ssa.Value]bool{}), text: name}, true
+			}
+		case "Write":
+			return tsWrite{alts: []tsAlt{lnDynamic}, text: name}, true
+		}
+		return tsWrite{}, false
+	}
+	if callee.Pkg != nil && callee.Pkg.Pkg.Path() == "fmt" && len(c.Args) >= 1 {
+		dst := c.Args[0]
+		if mi, ok := dst.(*ssa.MakeInterface); ok {
+			dst = mi.X
+		}
+		if !isBuilderRecv(dst.Type()) {
+			return tsWrite{}, false
+		}
+		switch name {
+		case "Fprintf":
+			if k, ok := c.Args[1].(*ssa.Const); ok && k.Value != nil && k.Value.Kind() == constant.String {
+				return tsWrite{alts: []tsAlt{lnOfFormat(constant.StringVal(k.Value))}, text: "Fprintf " + k.Value.ExactString()}, true
+			}
+			return tsWrite{alts: []tsAlt{lnDynamic}, text: name}, true
+		case "Fprint":
+			return tsWrite{alts: []tsAlt{lnDynamic}, text: name}, true
+		case "Fprintln":
+			return tsWrite{alts: []tsAlt{{first: tsS, last: tsA}}, text: name}, true
+		}
+	}
+	return tsWrite{}, false
+}
+
+// lnSuffixTest: the condition is strings.HasSuffix(<builder>.String(), c) for
+// the constant c after which the output is at a line start.
+func (ts *tokenSep) lnSuffixTest(cond ssa.Value) bool {
+	if !ts.lines || ts.tail == "" {
+		return false
+	}
+	c, ok := builderSuffixTest(cond)
+	return ok && c == ts.tail
+}
+
+// builderSuffixTest: cond is strings.HasSuffix(<builder>.String(), c) for a constant c.
+func builderSuffixTest(cond ssa.Value) (string, bool) {
+	call, ok := cond.(*ssa.Call)
+	if !ok {
+		return "", false
+	}
+	callee := call.Common().StaticCallee()
+	if callee == nil || callee.Pkg == nil || callee.Pkg.Pkg.Path() != "strings" || callee.Name() != "HasSuffix" || len(call.Common().Args) != 2 {
+		return "", false
+	}
+	k, ok := call.Common().Args[1].(*ssa.Const)
+	if !ok || k.Value == nil || k.Value.Kind() != constant.String || constant.StringVal(k.Value) == "" {
+		return "", false
+	}
+	src, ok := call.Common().Args[0].(*ssa.Call)
+	if !ok {
+		return "", false
+	}
+	sc := src.Common().StaticCallee()
+	if sc != nil && sc.Name() == "String" && sc.Signature.Recv() != nil && isBuilderRecv(sc.Signature.Recv().Type()) {
+		return constant.StringVal(k.Value), true
+	}
+	return "", false
 }
 
 func tsApply(state int, a tsAlt) int {
@@ -470,9 +647,27 @@ func (ts *tokenSep) run(fn *ssa.Function, entry int, chain string) int {
 				}
 			}
 		}
+		suffixTest := false
+		lastOfSuffix := 0 // token mode: the class of the last character when the suffix test holds
+		if len(b.Instrs) > 0 {
+			if ifi, ok := b.Instrs[len(b.Instrs)-1].(*ssa.If); ok {
+				if ts.lnSuffixTest(ifi.Cond) {
+					suffixTest = true
+				} else if c, ok := builderSuffixTest(ifi.Cond); ok && !ts.lines && !strings.Contains(c, `"`) {
+					l, _ := utf8.DecodeLastRuneInString(c)
+					lastOfSuffix = tsClass(l)
+				}
+			}
+		}
 		for si, s := range b.Succs {
 			changed := false
 			for k := range st {
+				if suffixTest && (si == 0) != (tsClassBits[k&3] == tsA) {
+					continue // the text ends with the line-start text exactly in the states at a line start
+				}
+				if lastOfSuffix != 0 && si == 0 && tsClassBits[k&3] != tsQ && tsClassBits[k&3] != lastOfSuffix {
+					continue // the text ends with the constant: its last character has that class
+				}
 				if zh != nil {
 					first := k>>2&zh.bit != 0
 					if (si == 0) == zeroOnTrue != first {
@@ -555,6 +750,120 @@ func RunTokenSep(w *World, r *Report, entries []string) {
 			r.OK("tokensep", key, w.Pos(s.Pos()), "every state reaching this write ends in a separator")
 		}
 	}
+}
+
+// RunBlankLine: the printer never leaves a line empty. The parser skips at
+// most one end of line where it allows one (after the lookup header, after
+// "||", between the rows of a class-based subtable), so a description with an
+// empty line does not parse back. The state "at the start of a line" is run
+// through the printer like the token classes of tokensep.
+func RunBlankLine(w *World, r *Report, entries []string) {
+	r.Rule("blankline: abstracting the text written so far by whether it ends with a line break (followed by tabs only), and running that state through the printer functions reachable from ExplainGsub and ExplainGpos (per entry state, following static calls, exact for first-iteration tests of loop counters and for a test strings.HasSuffix(builder.String(), t) where t is the one line-break text the printer writes), no write that begins with a line break can happen at the start of a line: the parser skips one end of line only, an empty line (for instance after the separator of two subtables) makes the description unparsable; the bare line break with which the entry function ends a lookup is exempt (between lookups any number of line ends is skipped)")
+	var es []*ssa.Function
+	for _, e := range entries {
+		fn := w.Func(e)
+		if fn == nil {
+			r.Fatal("anchor %s does not resolve", e)
+			return
+		}
+		es = append(es, fn)
+	}
+	ts := &tokenSep{w: w, lines: true, fns: map[*ssa.Function]bool{}, sum: map[*ssa.Function]map[int]int{}, busy: map[*ssa.Function]map[int]bool{}, reach: map[*ssa.Function]int{}, sites: map[ssa.Instruction]int{}, via: map[ssa.Instruction]string{}}
+	for _, fn := range srcFuncsReachable(w, es) {
+		if fnPkgPath(fn) == builderPkg {
+			ts.fns[fn] = true
+			for _, a := range fn.AnonFuncs {
+				ts.fns[a] = true
+			}
+		}
+	}
+	isEntry := map[*ssa.Function]bool{}
+	for _, e := range es {
+		isEntry[e] = true
+	}
+	tails := map[string]bool{}
+	for fn := range ts.fns {
+		for _, b := range fn.Blocks {
+			for _, in := range b.Instrs {
+				for _, op := range in.Operands(nil) {
+					if c, ok := (*op).(*ssa.Const); ok && c.Value != nil && c.Value.Kind() == constant.String {
+						if sv := constant.StringVal(c.Value); lnOfString(sv).last == tsA {
+							tails[lnTail(sv)] = true
+						}
+					}
+				}
+			}
+		}
+	}
+	if len(tails) == 1 {
+		for t := range tails {
+			ts.tail = t
+		}
+	}
+	for _, e := range es {
+		ts.run(e, tsS, fnName(e))
+	}
+	var sites []ssa.Instruction
+	for s := range ts.sites {
+		sites = append(sites, s)
+	}
+	sort.Slice(sites, func(i, j int) bool { return sites[i].Pos() < sites[j].Pos() })
+	for _, s := range sites {
+		fn := s.Parent()
+		wr, _ := ts.writeOf(s)
+		call := s.(*ssa.Call)
+		text := wr.text
+		if len(call.Common().Args) > 1 && !strings.HasPrefix(text, "Fprintf ") {
+			text += " " + valueText(call.Common().Args[1])
+		}
+		key := r.MkKey("blankline", fnName(fn), text)
+		if isEntry[fn] && lnBareBreak(call) && loopDepth(s.Block()) <= 1 {
+			r.OK("blankline", key, w.Pos(s.Pos()), "a bare line break written by the entry function outside the loop over the subtables ends the lookup: between lookups the parser skips any number of line ends")
+			continue
+		}
+		if ts.sites[s]&tsA != 0 {
+			r.Fail("blankline", key, w.Pos(s.Pos()), fmt.Sprintf("this write begins with a line break and can follow a write that ended with one (reached through %s): the description then contains an empty line, which the parser does not skip (it allows one end of line there)", ts.via[s]), nil)
+		} else {
+			r.OK("blankline", key, w.Pos(s.Pos()), "no state reaching this write is at the start of a line")
+		}
+	}
+	r.Floor("blankline", 6)
+}
+
+// lnBareBreak: the write is the single character '\n'.
+func lnBareBreak(call *ssa.Call) bool {
+	if len(call.Common().Args) != 2 {
+		return false
+	}
+	c, ok := call.Common().Args[1].(*ssa.Const)
+	if !ok || c.Value == nil {
+		return false
+	}
+	switch c.Value.Kind() {
+	case constant.String:
+		return constant.StringVal(c.Value) == "\n"
+	case constant.Int:
+		n, ok := constant.Int64Val(c.Value)
+		return ok && n == '\n'
+	}
+	return false
+}
+
+// loopDepth: the number of natural loops of the function that contain b.
+func loopDepth(b *ssa.BasicBlock) int {
+	n := 0
+	for _, h := range b.Parent().Blocks {
+		isHead := false
+		for _, p := range h.Preds {
+			if h.Dominates(p) {
+				isHead = true
+			}
+		}
+		if isHead && naturalLoop(h)[b] {
+			n++
+		}
+	}
+	return n
 }
 
 func valueText(v ssa.Value) string {
@@ -1001,4 +1310,60 @@ func RunRangeForm(w *World, r *Report) {
 			r.Fail("rangeform", key, w.Pos(site.Pos()), "the call for ligature subtables does not switch the range form off: consecutive single-component ligatures are described as a glyph range, which the parser of ligature lookups rejects", nil)
 		}
 	}
+}
+
+// RunEscapeLookBehind: inside a quoted string a backslash takes the next
+// character with it, whatever it is — also another backslash. Whether a quote
+// ends the string therefore depends on the parity of the backslashes in front
+// of it, which a state that is cleared by the escaped character provides and a
+// look at the previous character alone does not ("a\\" ends at its quote, the
+// look-behind reads on). Reported where the lexer compares a loop-carried copy
+// of the previous character with the backslash.
+func RunEscapeLookBehind(w *World, r *Report) {
+	r.Rule("escapestate: in the lexer of the lookup description language every comparison with the backslash character is made on the character just read (a result of (*lexer).next or peek), never on a loop-carried copy of the previous character: an escape is a state that the escaped character clears, the previous character alone does not tell whether a quote is escaped (the string \"\\\\\" ends at its second quote)")
+	n := 0
+	for _, fn := range w.LibFuncs() {
+		if fnPkgPath(fn) != builderPkg || !strings.HasPrefix(fn.Name(), "lex") {
+			continue
+		}
+		for _, b := range fn.Blocks {
+			for _, in := range b.Instrs {
+				bo, ok := in.(*ssa.BinOp)
+				if !ok || (bo.Op.String() != "==" && bo.Op.String() != "!=") {
+					continue
+				}
+				x, y := bo.X, bo.Y
+				if _, isC := x.(*ssa.Const); isC {
+					x, y = y, x
+				}
+				c, ok := y.(*ssa.Const)
+				if !ok || c.Value == nil || c.Value.Kind() != constant.Int {
+					continue
+				}
+				if k, ok := constant.Int64Val(c.Value); !ok || k != '\\' {
+					continue
+				}
+				n++
+				key := r.MkKey("escapestate", fnName(fn), "comparison with the backslash")
+				ph, isPhi := x.(*ssa.Phi)
+				carried := false
+				if isPhi {
+					for i, e := range ph.Edges {
+						if ph.Block().Dominates(ph.Block().Preds[i]) {
+							// a back edge: the value of an earlier iteration
+							if _, isConst := e.(*ssa.Const); !isConst {
+								carried = true
+							}
+						}
+					}
+				}
+				if carried {
+					r.Fail("escapestate", key, w.Pos(bo.Pos()), "the backslash test looks at a character kept from an earlier iteration: whether a quote is escaped is decided by the previous character alone, so an escaped backslash in front of the closing quote (\"B\\\\\") makes the lexer read past the end of the string", nil)
+				} else {
+					r.OK("escapestate", key, w.Pos(bo.Pos()), "the test is made on the character just read")
+				}
+			}
+		}
+	}
+	r.Floor("escapestate", 1)
 }
